@@ -324,6 +324,13 @@ def case_resume(p):
     items, shared2 = hap.resume_m2(ios_pub2, shared1, new_sid, **kw)
     if fault == "resume-tag-bitflip":
         items = [(t, _flip(v, arg) if t == hap.T_ENC else v) for t, v in items]
+    elif fault == "resume-tag-len":
+        # the right tag cut short (a prefix of it) or with bytes behind it: not the 16 bytes the accessory's secret produces
+        items = [(t, (v[:arg] if arg <= 16 else v + bytes(range(arg - 16))) if t == hap.T_ENC else v) for t, v in items]
+    elif fault == "resume-error-extra":
+        items = items + [(hap.T_ERROR, bytes(arg))]
+    elif fault == "resume-state-alter":
+        items = [x for t, v in items for x in (STATE_ALTER[arg](b"\x02") if t == hap.T_STATE else [(t, v)])]
     elif fault == "resume-old-sid-tag":
         items = [(t, old_tag if t == hap.T_ENC else v) for t, v in items]
     elif fault == "resume-no-field":
@@ -494,6 +501,7 @@ def run(ctx):
                 rl += [("resume-no-field", t) for t in (hap.T_METHOD, hap.T_SESSID, hap.T_ENC)]
                 rl += [("resume-tag-bitflip", b) for b in range(16 * 8)]
                 rl += [("resume-state-bitflip", b) for b in range(8)]
+                rl += [("resume-tag-len", n_) for n_ in list(range(0, 16)) + [17, 18, 32]] + [("resume-error-extra", e_) for e_ in (b"\x02", b"\x07", b"\x00", b"")] + [("resume-state-alter", a_) for a_ in STATE_ALTER]
                 plist = [{"rec": rec, "eph": eph, "style": style, "fault": f, "arg": a} for f, a in rl]
                 for i in range(0, len(plist), 50):
                     work.append(("resume", plist[i : i + 50]))
